@@ -1618,6 +1618,21 @@ def value_attr(it, v, a, n):
                 r.nt = nt
                 return r
             return Native(repl, 'namedtuple._replace')
+        ncls = getattr(nt, 'cls', None)
+        if ncls is not None and a not in ('_asdict', '_replace', '_fields', 'count', 'index'):
+            # members a typing.NamedTuple class defines itself: properties, methods, class methods
+            for c_ in it.prog.mro(ncls):
+                if a in c_.methods:
+                    from .front import FuncRef
+                    f_ = FuncRef(c_.methods[a], c_.module, c_)
+                    decs_ = f_.decorators()
+                    if 'property' in decs_:
+                        return it.invoke(f_, [v], {})
+                    if 'staticmethod' in decs_:
+                        return f_
+                    if 'classmethod' in decs_:
+                        return Bound(nt, f_)
+                    return Bound(v, f_)
         if a == '_asdict':
             def asd(it_, args, kw, node, _v=v):
                 d = DictV()
